@@ -26,24 +26,40 @@ impl<'arena> Punning<'arena> {
     pub(super) fn term_payload(
         &self, field: &FieldName, inner: TermId,
     ) -> Option<PunnedTermPayload> {
+        self.term_payload_through(field, inner, &|term| term)
+    }
+
+    /// Recognize a pun whose payload or variable sits in groups the printer drops:
+    /// `through` looks through them, so that `x = (x)` is a pun in the pass that
+    /// drops its parentheses rather than in the next one.
+    pub(super) fn term_payload_through(
+        &self, field: &FieldName, inner: TermId, through: &dyn Fn(TermId) -> TermId,
+    ) -> Option<PunnedTermPayload> {
+        let inner = through(inner);
         if !self.is_trivia_free(inner) {
             return None;
         }
         match &self.arena.terms[&inner] {
             | Term::Var(VarName(name)) if name == &field.0 => Some(PunnedTermPayload::Variable),
-            | Term::Ann(Ann { tm, ty }) => match &self.arena.terms[tm] {
-                | Term::Var(VarName(name)) if name == &field.0 && self.is_trivia_free(*tm) => {
-                    Some(PunnedTermPayload::Annotated { variable: *tm, classifier: *ty })
+            | Term::Ann(Ann { tm, ty }) => {
+                let variable = through(*tm);
+                match &self.arena.terms[&variable] {
+                    | Term::Var(VarName(name))
+                        if name == &field.0 && self.is_trivia_free(variable) =>
+                    {
+                        Some(PunnedTermPayload::Annotated { variable, classifier: *ty })
+                    }
+                    | _ => None,
                 }
-                | _ => None,
-            },
+            }
             | _ => None,
         }
     }
 
-    pub(super) fn pattern_payload(
-        &self, field: &FieldName, inner: PatId,
+    pub(super) fn pattern_payload_through(
+        &self, field: &FieldName, inner: PatId, through: &dyn Fn(PatId) -> PatId,
     ) -> Option<PunnedPatternPayload> {
+        let inner = through(inner);
         if !self.is_trivia_free(inner) {
             return None;
         }
@@ -51,14 +67,18 @@ impl<'arena> Punning<'arena> {
             | Pattern::Var(definition) if self.arena.defs[definition].0 == field.0 => {
                 Some(PunnedPatternPayload::Variable)
             }
-            | Pattern::Ann(Ann { tm, ty }) => match &self.arena.pats[tm] {
-                | Pattern::Var(definition)
-                    if self.arena.defs[definition].0 == field.0 && self.is_trivia_free(*tm) =>
-                {
-                    Some(PunnedPatternPayload::Annotated { variable: *tm, classifier: *ty })
+            | Pattern::Ann(Ann { tm, ty }) => {
+                let variable = through(*tm);
+                match &self.arena.pats[&variable] {
+                    | Pattern::Var(definition)
+                        if self.arena.defs[definition].0 == field.0
+                            && self.is_trivia_free(variable) =>
+                    {
+                        Some(PunnedPatternPayload::Annotated { variable, classifier: *ty })
+                    }
+                    | _ => None,
                 }
-                | _ => None,
-            },
+            }
             | _ => None,
         }
     }
